@@ -34,11 +34,44 @@ pub fn generate(rng: &mut Rng, tier: &str) -> Scenario {
     sc.val = Some(val);
     // which text serializer produces the document (layout variety)
     sc.whseed = rng.below(TEXT_SERS.len()) as u64;
+    // a writer that emits one map key twice (think `#[serde(flatten)]` colliding with a declared
+    // field): legal serde, last-or-first wins is the library's choice — but the same choice on every
+    // encoding route (clause 3)
+    if rng.chance(1, 12) {
+        if let Some(v) = sc.val.as_mut() {
+            if dup_key(&sc.ty, v) {
+                sc.whmask |= DUP_KEY;
+            }
+        }
+    }
     match rng.below(10) {
         0 | 1 | 2 => sc.fault = FaultSpec::Vis(rng.below(40) as u32, rng.chance(1, 2)),
         _ => {}
     }
     sc
+}
+
+pub const DUP_KEY: u32 = 0x100;
+
+/// append a second entry for the first key of the first non-empty string-keyed map found
+fn dup_key(ty: &Ty, v: &mut Val) -> bool {
+    match (ty, v) {
+        (Ty::Map(KeyTy::Str, _), Val::Map(kvs)) if !kvs.is_empty() => {
+            let k = kvs[0].0.clone();
+            let other = kvs.last().unwrap().1.clone();
+            let first = kvs[0].1.clone();
+            // make the two values differ where possible
+            let second = if other != first { other } else { first };
+            kvs.push((k, second));
+            true
+        }
+        (Ty::Map(_, vt), Val::Map(kvs)) => kvs.iter_mut().any(|(_, x)| dup_key(vt, x)),
+        (Ty::Option(t), Val::Some(x)) => dup_key(t, x),
+        (Ty::Newtype(_, t), x) => dup_key(t, x),
+        (Ty::Seq(t), Val::Seq(xs)) => xs.iter_mut().any(|x| dup_key(t, x)),
+        (Ty::Struct(_, fs), Val::Struct(xs)) => fs.iter().zip(xs.iter_mut()).any(|((_, t), x)| dup_key(t, x)),
+        _ => false,
+    }
 }
 
 pub fn generate_b(rng: &mut Rng, _tier: &str) -> Scenario {
@@ -161,7 +194,12 @@ fn run_routes(
 fn exec_a(sc: &Scenario, verbose: bool, out: &mut RunOut) {
     let ty = &sc.ty;
     let val = sc.val.as_ref().expect("C13/A without value");
-    let must = must_succeed(ty, val);
+    let dup = sc.whmask & DUP_KEY != 0;
+    // with a duplicated key "that value" is not defined: only route agreement and clause 3 are asserted
+    let must = must_succeed(ty, val) && !dup;
+    if dup {
+        out.stats.inc("probe.duplicate_key_writer");
+    }
     out.stats.inc(if must { "class.must_succeed" } else { "class.outside" });
     if has_dt(val) {
         out.stats.inc("probe.datetime_leaf");
@@ -227,6 +265,51 @@ fn exec_a(sc: &Scenario, verbose: bool, out: &mut RunOut) {
                                 "C13/2",
                                 format!("C13/route-fails-on-own-output/route={route}"),
                                 format!("{route} fails on text obtained by serializing a value of the target type: {}\n--- text ({sname}) ---\n{text}\n--- value text ---\n{vtext:?}", e.rendered),
+                            );
+                        }
+                    }
+                }
+            }
+        }
+    }
+
+    // the single-value deserializers with every wrapper kind as the *top-level* target: each field of
+    // a root struct, serialized as a single value, read with the field's own type
+    if let (true, Ty::Struct(_, fs), Val::Struct(xs), FaultSpec::None) = (must, ty, val, &sc.fault) {
+        for ((_, ft), fv) in fs.iter().zip(xs).take(4) {
+            let (ft, fv) = match (ft, fv) {
+                (Ty::Option(_), Val::None) => continue,
+                (Ty::Option(t), Val::Some(x)) if matches!(**t, Ty::Option(_)) => (&**t, &**x),
+                other => other,
+            };
+            let fw = W { ty: ft, v: fv, cfg: &wcfg };
+            let ftext = match catch_unwind(AssertUnwindSafe(|| fw.serialize(toml_edit::ser::ValueSerializer::new()).ok().map(|v| v.to_string()))) {
+                Ok(Some(t)) => t,
+                _ => continue,
+            };
+            for route in [R7A, R7B] {
+                if !sc.wants(route) {
+                    continue;
+                }
+                let cx = Ctx::new(Fault::None, verbose);
+                let rcfg = RCfg::plain();
+                let r = catch_unwind(AssertUnwindSafe(|| run_route(route, &ftext, ft, &rcfg, &cx)));
+                out.absorb(&cx);
+                log_cx(out, &format!("{route} on field value {ftext:?}"), &cx, verbose);
+                out.stats.inc("oracle.value_route_on_field");
+                match r {
+                    Err(p) => out.violate("C13/4", format!("C13/panic/route={route}"), format!("{route} panicked on {ftext:?}: {}", panic_msg(&p))),
+                    Ok(Err(e)) => out.violate(
+                        "C13/2",
+                        format!("C13/route-fails-on-own-output/route={route}"),
+                        format!("{route} fails on the text of a single value obtained by serializing a value of the target type {}: {}\n--- value text ---\n{ftext}", crate::render::rust_decl(ft), e.rendered),
+                    ),
+                    Ok(Ok(v2)) => {
+                        if v2.canon(true) != fv.canon(true) {
+                            out.violate(
+                                "C13/2",
+                                format!("C13/route-wrong-value/route={route}"),
+                                format!("{route} returns a value different from the one serialized\n wrote {:?}\n read  {:?}\n--- value text ---\n{ftext}", fv.canon(true), v2.canon(true)),
                             );
                         }
                     }
